@@ -86,12 +86,14 @@ Lemma int_flux_guarded_char : int_flux_guarded = true.
 Proof. reflexivity. Qed.
 Lemma singular_fallback_char : singular_fallback_is_nan = true.
 Proof. reflexivity. Qed.
+Lemma copied_errors_guarded_char : copied_errors_guarded = true.
+Proof. reflexivity. Qed.
 
 (* from here on the leaves are used only through the lemmas above *)
 Local Opaque isle_num_step isle_num_incr_before_use isle_num_init comp_init comp_step refit_comp_init refit_comp_step
   island_components group_size batch_full batch_rest istart fix_swap_test fix_pa_step pa_up_test pa_up_step
   pa_down_test pa_down_step ra_wrap_test ra_wrap_step errors_early_mask guard_pos guard_pa guard_shape
-  stderr_none_is_nan six_guarded int_flux_guarded singular_fallback_is_nan.
+  stderr_none_is_nan six_guarded int_flux_guarded singular_fallback_is_nan copied_errors_guarded.
 
 (* ================================================================================== *)
 (* lists of consecutive integers                                                       *)
@@ -1077,3 +1079,10 @@ Proof.
   - rewrite H. eexists; reflexivity.
   - destruct (has (ei_flags i) (N.lor NOTFIT FITERR)); [eexists; reflexivity|]. rewrite H. eexists; reflexivity.
 Qed.
+
+(* ================================================================================== *)
+(* uncertainties copied from the input catalogue by priorized fitting                  *)
+Lemma copied_error_ok : forall c, err_cls_ok (copied_error c) = true.
+Proof. intro c. unfold copied_error. rewrite copied_errors_guarded_char. destruct c; reflexivity. Qed.
+Lemma copied_error_keeps_known : forall c, err_cls_ok c = true -> c <> PyNone -> copied_error c = c.
+Proof. intros c H Hn. unfold copied_error. rewrite copied_errors_guarded_char. destruct c; try reflexivity; try discriminate H; congruence. Qed.
